@@ -30,7 +30,7 @@ def C08(cfg, **kw):
 PROPS["C08"] = {
     "level": "model_checking",
     "technique": "preemption-point model checking: BFS over task-level timer histories x placement of the tick interrupt at every shared-memory access outside the lock (compiler-instrumented loads/stores), expiry-accounting oracle + pool conservation",
-    "text": "co_tmr.c is compiled with load/store tracing; every access to CO_TMR, the timer memory, the hardware counter or Node.Error made outside COTmrLock/Unlock is a preemption point at which COTmrService may run. BFS over {create, delete, service, process} x injection point, with service and process as independent events (arbitrary processing delay). Closed state space (fixpoint) for pools 1 and 2 with an interrupt allowed in every operation; depth-bounded for pool 3.",
+    "text": "co_tmr.c is compiled with load/store tracing; every access to CO_TMR, the timer memory, the hardware counter or Node.Error made outside COTmrLock/Unlock is a preemption point at which COTmrService may run. BFS over {create, delete, service, process} x injection point, with service and process as independent events (arbitrary processing delay). Closed state space (fixpoint) for pools 1 and 2 with an interrupt allowed in every operation; depth-bounded for pool 3. The exploration of callbacks that delete a sibling which fell due on the same tick (C07, pool 3 closed) is part of this check: no waiting action is lost, the pool is conserved.",
     "note": "one injected interrupt per task-level operation (any number per history in the unbounded configurations); single core, interrupt runs to completion; plain callbacks only",
     "jobs": {
         "quick":    [C08(0, depth=40), C08(1, depth=40), C08(6, depth=40), C08(7, depth=40), C08(2, depth=6, deadline=60), C08(5, depth=5, deadline=60)],
@@ -41,9 +41,14 @@ PROPS["C08"] = {
 
 # C07 names tick and process as separate operations: histories in which expiries wait for their processing step (several events
 # elapsed, deletes in between) are explored with the C08 harness, whose task-level alphabet has service and process as events of their own
+SIB = {"kinds": 5, "times": 2}      # callbacks that delete the first / the last other live action: with three or four actions on one tick the victim is any sibling, adjacent or not
+PROPS["C07"]["jobs"]["quick"] += [J("c07", 2, depth=40, deadline=100, opts=SIB), J("c07", 3, depth=6, deadline=100, opts=SIB)]
+PROPS["C07"]["jobs"]["thorough"] += [J("c07", 2, depth=40, deadline=600, opts=SIB), J("c07", 3, depth=9, deadline=900, max_states=20000000, opts=SIB)]
+PROPS["C08"]["jobs"]["quick"] += [J("c07", 2, depth=40, deadline=100, opts=SIB)]
+PROPS["C08"]["jobs"]["thorough"] += [J("c07", 2, depth=40, deadline=600, opts=SIB), J("c07", 3, depth=8, deadline=900, max_states=20000000, opts=SIB)]
 PROPS["C07"]["jobs"]["quick"] += [C08(0, depth=40), C08(1, depth=40), C08(2, depth=6, deadline=60)] + [J("c07ins", c, deadline=100) for c in range(11)]
 PROPS["C07"]["jobs"]["thorough"] += [C08(0, depth=40), C08(1, depth=40), C08(3, depth=40), C08(4, depth=40), C08(2, depth=10, deadline=900, max_states=40000000)] + [J("c07ins", c, deadline=900) for c in range(11)]
-PROPS["C07"]["text"] += " Deferred processing - ticks served without a processing step, so that several events wait in the elapsed list while actions are created and deleted - is covered by the C08 exploration (task-level events create / delete / service / process on pools 1..3, lockstep expiry accounting and pool conservation), which is part of this check as well. Insertion orders and magnitudes (c07ins): every operation sequence of length <= 6 (8) over {one-shot with delay 1..6, three cyclic actions, tick, delete of the k-th created action} on a pool of six - a new action is queued before, between any two, equal to any and behind up to five pending events, which three distinct delays cannot produce - and sequences of length <= 5 (6) over delays {1, 3, 4464, 65535, 65536, 65537, 70000, 131075} (16-bit seams of the remaining-delay arithmetic; time advanced by letting the hardware counter run); after every prefix the remaining schedule is run to completion on a copy and each tick's callbacks must be exactly the actions due on it."
+PROPS["C07"]["text"] += " Deferred processing - ticks served without a processing step, so that several events wait in the elapsed list while actions are created and deleted - is covered by the C08 exploration (task-level events create / delete / service / process on pools 1..3, lockstep expiry accounting and pool conservation), which is part of this check as well. Insertion orders and magnitudes (c07ins): every operation sequence of length <= 6 (8) over {one-shot with delay 1..6, three cyclic actions, tick, delete of the k-th created action} on a pool of six - a new action is queued before, between any two, equal to any and behind up to five pending events, which three distinct delays cannot produce - and sequences of length <= 5 (6) over delays {1, 3, 4464, 65535, 65536, 65537, 70000, 131075} (16-bit seams of the remaining-delay arithmetic; time advanced by letting the hardware counter run); after every prefix the remaining schedule is run to completion on a copy and each tick's callbacks must be exactly the actions due on it. Callbacks that delete a sibling (c07 with kinds=5, times=2): besides 'delete the first other live action' a callback kind 'delete the last other live action', so that with three or four actions on one tick the victim is any sibling, adjacent to the running one or not, waiting or already run; pool 3 closed (fixpoint), pool 4 to depth 6 (9)."
 
 SC3 = ["CO_VERIF_SDO_BUF_SEG=3"]
 REAL1K = ["SDO_DS2=1000"]
@@ -71,7 +76,7 @@ def sdo_jobs(h, quick):
 PROPS["C04"] = {
     "level": "model_checking",
     "technique": "explicit-state BFS over the full SDO command alphabet against the real server with an allowed-set reference server",
-    "text": 'BFS over the real SDO server(s) with an alphabet of ~630 request frames (all 256 command bytes; initiate requests of every kind to every object class incl. missing index/sub-index, RO/WO, node-id relative, domains smaller/larger than the buffer, strings, range- and user-abort types, with size fields =,<,>,0; acknowledges for all ackseq x blksize classes), in lockstep with a reference server that yields the set of admissible responses per protocol state. Per step: number of response frames, multiplexer, abort code, toggle/size/last flags, data, and the complete dictionary image are compared. The scaled-buffer build (3 segments) is explored to a fixpoint under a coarse state identity; fine state identity to depth 2-3; a "residue" state identity that keeps the cursors, counters and flags finished transfers leave behind (only buffer bytes and multiplexer dropped) to depth 5 (quick) / 8 or the deadline (thorough); the real 127-segment buffer and a two-server build to a depth bound. The dictionary holds 1010h with two parameter groups (reset types communication and node) whose NVM images differ from RAM: no SDO access may load them. Refusals that come from the type of the object written - 0604 0043h of the heartbeat consumer 1016h, 0604 0041h/0042h of the PDO mapping records - are decided by the C11 and C14 explorations (two consumer tables, PDO pair #0 and the mapping-procedure enumeration c14map), which are part of this check.',
+    "text": 'BFS over the real SDO server(s) with an alphabet of ~630 request frames (all 256 command bytes; initiate requests of every kind to every object class incl. missing index/sub-index, RO/WO, node-id relative, domains smaller/larger than the buffer, strings, range- and user-abort types, with size fields =,<,>,0; acknowledges for all ackseq x blksize classes), in lockstep with a reference server that yields the set of admissible responses per protocol state. Per step: number of response frames, multiplexer, abort code, toggle/size/last flags, data, and the complete dictionary image are compared. The scaled-buffer build (3 segments) is explored to a fixpoint under a coarse state identity; fine state identity to depth 2-3; a "residue" state identity that keeps the cursors, counters and flags finished transfers leave behind (only buffer bytes and multiplexer dropped) to depth 5 (quick) / 8 or the deadline (thorough); the real 127-segment buffer and a two-server build to a depth bound. The dictionary holds 1010h with two parameter groups (reset types communication and node) whose NVM images differ from RAM: no SDO access may load them. Refusals that come from the type of the object written - 0604 0043h of the heartbeat consumer 1016h, 0604 0041h/0042h of the PDO mapping records - are decided by the C11 and C14 explorations (two consumer tables, PDO pair #0 and the mapping-procedure enumeration c14map), which are part of this check. In the two-server build the COB-IDs of the second server (1201h) are writable and stored in a third parameter group.',
     "note": 'coarse state identity zeroes fields the next initiate re-initialises (assumed dead; cross-checked by the fine explorations to their depth); application data is rewritten to its initial value whenever all servers are idle; requests in block-download phases are judged as segments (CiA 301 cannot tell them apart); out-of-protocol non-initiate requests only need exactly one answer',
     "jobs": {"quick": sdo_jobs("c04", True), "thorough": sdo_jobs("c04", False)},
 }
@@ -84,7 +89,7 @@ PROPS["C04"]["jobs"]["thorough"] += [J("c11", 1, depth=8, deadline=600, max_stat
 PROPS["C05"] = {
     "level": "model_checking",
     "technique": "reachability closure of the real SDO server under the full command alphabet + recovery probes (abort / reset communication, then clean transfers) in every reachable state, differential against a fresh node",
-    "text": 'The C04 exploration (closed state space of the scaled-buffer server) with a recovery probe in every discovered state: on a copy of the state, [client abort] resp. [NMT reset communication] followed by each of 7 clean transfers (expedited/segmented/block up- and downloads of integers, domains below and above the buffer size, strings; with a lost block segment and a partial block acknowledge). Each must succeed with correct data and its complete frame trace must equal the trace of the same transfer on a freshly initialised node; the reference server runs in lockstep. The dictionary holds 1010h with two parameter groups (reset types communication and node) whose NVM images differ from RAM, so that a transfer which reloads a group - a download that was confirmed and is silently undone - shows as a changed dictionary.',
+    "text": 'The C04 exploration (closed state space of the scaled-buffer server) with a recovery probe in every discovered state: on a copy of the state, [client abort] resp. [NMT reset communication] followed by each of 7 clean transfers (expedited/segmented/block up- and downloads of integers, domains below and above the buffer size, strings; with a lost block segment and a partial block acknowledge). Each must succeed with correct data and its complete frame trace must equal the trace of the same transfer on a freshly initialised node; the reference server runs in lockstep. The dictionary holds 1010h with two parameter groups (reset types communication and node) whose NVM images differ from RAM, so that a transfer which reloads a group - a download that was confirmed and is silently undone - shows as a changed dictionary. In the two-server build the COB-IDs of the second server are writable and stored (third parameter group): a third probe prefix switches that server off in RAM, then NMT reset communication - which reloads the stored identifiers - and every clean transfer must again work on it as on a fresh node.',
     "note": 'same reductions as C04; probes run after application data has been rewritten to its initial values (the comparison is about protocol behaviour)',
     "jobs": {"quick": sdo_jobs("c05", True), "thorough": sdo_jobs("c05", False)},
 }
@@ -117,7 +122,7 @@ PROPS["C03"] = {
 PROPS["C09"] = {
     "level": "model_checking",
     "technique": "explicit-state BFS to a fixpoint over NMT commands, API mode changes and one probe frame per service, against a reference CiA 301 slave state machine with a per-state gating table",
-    "text": "Node with one of every service (SDO server, asynchronous RPDO, event and synchronous TPDO, SYNC consumer, heartbeat producer and consumer, EMCY, LSS). Alphabet: NMT command specifiers {1,2,128,129,130,0,3,127,255} x target {own id, 0, other, 80h | own id, 80h}; LSS switch + configure node-id 7 + store (the node id changes at the next reset: NMT addressing, SDO identifiers, boot-up and heartbeat must follow, the old SDO identifier becomes foreign); CONmtSetMode, CONodeStart, CONmtReset(node/com), CONodeStop; probe frames for SDO, RPDO, SYNC, heartbeat of a monitored and an unmonitored node, LSS switch/inquire, a foreign identifier, the node's own transmit identifiers and three identifiers that equal a served one (NMT, SDO, RPDO) in their low 11 bits only; COEmcySet/Clr, COTPdoTrigPdo, tick. After every step: node mode, the sequence of mode-change callbacks, the reset-request callback, the number and content of boot-up frames, which service reacted (frames per identifier, mapped object, PDO callback), and how often the frame was handed to the application callback are compared with the reference. The reachable state set is closed (fixpoint) for node ids 1, 5 and 127, started and unstarted. A fifth configuration replaces the heartbeat services by a TPDO that lives on timers (event time 3 ticks, inhibit time 2 ticks, application trigger): its frames may appear only while the reference FSM is OPERATIONAL, whichever timer or trigger path produces them. Identifier sweep: in every reachable state of all five configurations a frame on each of the 2047 base-format identifiers the node has no service for (all but NMT, SYNC, the RPDO, the SDO request, the monitored node's heartbeat and LSS; payload reading as a heartbeat / NMT command for this node, thorough: also eight FFh bytes) must reach the application callback exactly once (at most once in STOPPED), send nothing, cause no other callback and leave the node's memory byte for byte as it was.",
+    "text": "Node with one of every service (SDO server, asynchronous RPDO, event and synchronous TPDO, SYNC consumer, heartbeat producer and consumer, EMCY, LSS). Alphabet: NMT command specifiers {1,2,128,129,130,0,3,127,255} x target {own id, 0, other, 80h | own id, 80h}; LSS switch + configure node-id 7 + store (the node id changes at the next reset: NMT addressing, SDO identifiers, boot-up and heartbeat must follow, the old SDO identifier becomes foreign); CONmtSetMode, CONodeStart, CONmtReset(node/com), CONodeStop; probe frames for SDO, RPDO, SYNC, heartbeat of a monitored and an unmonitored node, LSS switch/inquire, a foreign identifier, the node's own transmit identifiers and three identifiers that equal a served one (NMT, SDO, RPDO) in their low 11 bits only; COEmcySet/Clr, COTPdoTrigPdo, tick. After every step: node mode, the sequence of mode-change callbacks, the reset-request callback, the number and content of boot-up frames, which service reacted (frames per identifier, mapped object, PDO callback), and how often the frame was handed to the application callback are compared with the reference. The reachable state set is closed (fixpoint) for node ids 1, 5 and 127, started and unstarted. A fifth configuration replaces the heartbeat services by a TPDO that lives on timers (event time 3 ticks, inhibit time 2 ticks, application trigger): its frames may appear only while the reference FSM is OPERATIONAL, whichever timer or trigger path produces them. Identifier sweep: in every reachable state of all five configurations a frame on each of the 2047 base-format identifiers the node has no service for (all but NMT, SYNC, the RPDO, the SDO request, the monitored node's heartbeat and LSS; payload reading as a heartbeat / NMT command for this node, thorough: also eight FFh bytes) must reach the application callback exactly once (at most once in STOPPED), send nothing, cause no other callback and leave the node's memory byte for byte as it was. In the same states a block download dialogue on the SDO request identifier - initiate (answered), a segment inside the block (consumed silently), client abort - must in PRE-OPERATIONAL and OPERATIONAL belong to the SDO server alone (no application callback, no other service), otherwise each frame is one nobody claims.",
     "note": "heartbeat timing is not compared here (C10), only content and at most one per tick; in STOPPED the delivery of unclaimed frames to the application is unconstrained as the statement says; after CONodeStop only safety is judged; NMT frames carry DLC 2",
     "jobs": {
         "quick": [J("c09", c, depth=80, deadline=120) for c in range(5)],
@@ -128,11 +133,11 @@ PROPS["C09"] = {
 PROPS["C10"] = {
     "level": "model_checking",
     "technique": "explicit-state BFS over ticks, 1017h writes (SDO and API), NMT commands and every other timer user as interference, against a reference heartbeat schedule",
-    "text": "Node with heartbeat producer, one heartbeat consumer, SYNC (producer switchable), an event-driven TPDO with inhibit and event time, and an application timer. 30 events: tick; 1017h := {0,1,2,3} periods by SDO and by CODictWrWord; NMT start/stop/pre-op/reset communication/reset node; SDO writes to 1800h:1/:2/:3/:5, 1005h, 1006h, 1016h:1; COTPdoTrigPdo; a changed asynchronous mapped object; application COTmrCreate/COTmrDelete; heartbeat of the monitored node (its timeouts interleave). After every step the heartbeat frames (count, DLC, state byte) must equal the reference schedule: exactly one frame every period counted from the last accepted write or reset, none otherwise. 1 kHz and 100 Hz timers, node ids 1 and 10; a fifth configuration starts OPERATIONAL with the producer off and a TPDO event time of one tick, so that histories of six events reach a timer id wandering from the TPDO to the producer (event expiry outside OPERATIONAL, producer started, TPDO re-initialised). Long periods on fast timers (c10long): heartbeat times {3000, 6554, 10000, 32768, 65535} ms at {1, 2, 10, 20} kHz - up to 1.3 million ticks per period - alone and with another timer user armed, elapsing or deleted while the producer has more than 65535 ticks to go (TPDO event timer, short application timer, longer application timer deleted, SYNC producer); the first two heartbeats must come exactly one and two periods after the write. Crowded timer list (c10long cfg 1): every sequence of up to 6 (7) operations over {application one-shot of 2, 4, 9, 13, 30 ticks, cyclic application timer of 3 and of 10 ticks, tick, 1017h := 7 ms} with exactly one write - the producer's event is queued before, between and behind up to five pending events of other users - after which the heartbeats must come exactly 7, 14, 21 and 28 ticks after the write.",
+    "text": "Node with heartbeat producer, one heartbeat consumer, SYNC (producer switchable), an event-driven TPDO with inhibit and event time, and an application timer. 30 events: tick; 1017h := {0,1,2,3} periods by SDO and by CODictWrWord; NMT start/stop/pre-op/reset communication/reset node; SDO writes to 1800h:1/:2/:3/:5, 1005h, 1006h, 1016h:1; COTPdoTrigPdo; a changed asynchronous mapped object; application COTmrCreate/COTmrDelete; heartbeat of the monitored node (its timeouts interleave). After every step the heartbeat frames (count, DLC, state byte) must equal the reference schedule: exactly one frame every period counted from the last accepted write or reset, none otherwise. 1 kHz and 100 Hz timers, node ids 1 and 10; a fifth configuration starts OPERATIONAL with the producer off and a TPDO event time of one tick, so that histories of six events reach a timer id wandering from the TPDO to the producer (event expiry outside OPERATIONAL, producer started, TPDO re-initialised). Long periods on fast timers (c10long): heartbeat times {3000, 6554, 10000, 32768, 65535} ms at {1, 2, 10, 20} kHz - up to 1.3 million ticks per period - alone and with another timer user armed, elapsing or deleted while the producer has more than 65535 ticks to go (TPDO event timer, short application timer, longer application timer deleted, SYNC producer); the first two heartbeats must come exactly one and two periods after the write. Crowded timer list (c10long cfg 1): every sequence of up to 6 (7) operations over {application one-shot of 2, 4, 9, 13, 30 ticks, cyclic application timer of 3 and of 10 ticks, tick, 1017h := 7 ms} with exactly one write - the producer's event is queued before, between and behind up to five pending events of other users - after which the heartbeats must come exactly 7, 14, 21 and 28 ticks after the write. Two configurations (1017h initially 0 and 2 ms) leave the node initialised but not started: the application writes 1017h through the dictionary API and creates timers before CONodeStart; frames before boot-up are not judged, from boot-up on the schedule is last write + k x period.",
     "note": "depth-bounded (no fixpoint: the product with the other timer users is large); other frames of a step are ignored here",
     "jobs": {
-        "quick": [J("c10", 0, depth=7, deadline=100), J("c10", 1, depth=6, deadline=100), J("c10", 2, depth=6, deadline=100), J("c10", 3, depth=6, deadline=100), J("c10", 4, depth=6, deadline=100), J("c10", 5, depth=6, deadline=100), J("c10long"), J("c10long", 1)],
-        "thorough": [J("c10", c, depth=10, deadline=1200, max_states=30000000) for c in range(6)] + [J("c10long"), J("c10long", 1, deadline=600)],
+        "quick": [J("c10", 0, depth=7, deadline=100), J("c10", 1, depth=6, deadline=100), J("c10", 2, depth=6, deadline=100), J("c10", 3, depth=6, deadline=100), J("c10", 4, depth=6, deadline=100), J("c10", 5, depth=6, deadline=100), J("c10", 6, depth=7, deadline=100), J("c10", 7, depth=7, deadline=100), J("c10long"), J("c10long", 1)],
+        "thorough": [J("c10", c, depth=10, deadline=1200, max_states=30000000) for c in range(8)] + [J("c10long"), J("c10long", 1, deadline=600)],
     },
 }
 
@@ -140,16 +145,16 @@ SLOW = {"slow": 1}      # 100 Hz timer, all times of the alphabet in units of 10
 PROPS["C11"] = {
     "level": "model_checking",
     "technique": "explicit-state BFS over heartbeat frames, 1016h writes, counter/state queries and ticks against a reference monitor per consumer entry",
-    "text": "Consumer tables of 1..4 entries (6 initial configurations). Events: heartbeat frames of two monitored nodes and one unmonitored node with states {0,4,5,127}; SDO write of {node X|Y, time 0|2|3} and {0,0} to every entry followed by a read-back; CONmtGetHbEvents and CONmtLastHbState for the three nodes; tick; 765 ticks of silence (counter saturation); NMT stop/start/reset communication. After every step the CONmtHbConsEvent / CONmtHbConsChange callbacks (multiset per node), the return values of the queries, the SDO verdict (0604 0043h and no change for a node that is already monitored, acceptance otherwise) and the read-back value are compared with the reference; entries not addressed by a write must keep their monitoring. Two of the tables run once more on a 100 Hz timer with every time given in units of 10 ms. A seventh table has four entries with four distinct times (2, 3, 4, 6 ticks) and an alphabet reduced to the four heartbeats and the tick, explored to depth 9 (13): four consumer timers pending at once, a re-armed one queued before, between and behind the others. Two tables are explored once more with the monitored node ids at the ends of the range (127, 126, 2, 3).",
+    "text": "Consumer tables of 1..4 entries (6 initial configurations). Events: heartbeat frames of two monitored nodes and one unmonitored node with states {0,4,5,127}; SDO write of {node X|Y, time 0|2|3} and {0,0} to every entry followed by a read-back; CONmtGetHbEvents and CONmtLastHbState for the three nodes; tick; 765 ticks of silence (counter saturation); NMT stop/start/reset communication. After every step the CONmtHbConsEvent / CONmtHbConsChange callbacks (multiset per node), the return values of the queries, the SDO verdict (0604 0043h and no change for a node that is already monitored, acceptance otherwise) and the read-back value are compared with the reference; entries not addressed by a write must keep their monitoring. Two of the tables run once more on a 100 Hz timer with every time given in units of 10 ms. A seventh table has four entries with four distinct times (2, 3, 4, 6 ticks) and an alphabet reduced to the four heartbeats and the tick, explored to depth 9 (13): four consumer timers pending at once, a re-armed one queued before, between and behind the others. Two tables are explored once more with the monitored node ids at the ends of the range (127, 126, 2, 3). One table is explored once more with the heartbeat state bytes {85h, FFh, 5, 127}: bytes CiA 301 does not define are one 'unknown' state that differs from every defined one.",
     "note": "'already monitored' is read literally (any entry, including the written one, configured with that node and a non-zero time); depth-bounded",
     "jobs": {
         "quick": [J("c11", 0, depth=8, deadline=100), J("c11", 1, depth=6, deadline=100), J("c11", 2, depth=6, deadline=100), J("c11", 3, depth=5, deadline=100), J("c11", 4, depth=5, deadline=100), J("c11", 5, depth=5, deadline=100)] +
                  [J("c11", 1, depth=6, deadline=100, opts=SLOW), J("c11", 5, depth=5, deadline=100, opts=SLOW), J("c11", 6, depth=9, deadline=100, allow_dead=True),
-                  J("c11", 1, depth=6, deadline=100, opts={"edge": 1}), J("c11", 5, depth=5, deadline=100, opts={"edge": 1})],
+                  J("c11", 1, depth=6, deadline=100, opts={"edge": 1}), J("c11", 5, depth=5, deadline=100, opts={"edge": 1}), J("c11", 1, depth=6, deadline=100, opts={"odd": 1})],
         "thorough": [J("c11", 0, depth=14, deadline=1200), J("c11", 1, depth=9, deadline=1200, max_states=30000000), J("c11", 2, depth=9, deadline=1200, max_states=30000000),
                      J("c11", 3, depth=8, deadline=1200, max_states=30000000), J("c11", 4, depth=8, deadline=1200, max_states=30000000), J("c11", 5, depth=7, deadline=1200, max_states=30000000)] +
                     [J("c11", 1, depth=9, deadline=1200, max_states=30000000, opts=SLOW), J("c11", 5, depth=7, deadline=1200, max_states=30000000, opts=SLOW), J("c11", 6, depth=13, deadline=1200, max_states=30000000, allow_dead=True),
-                     J("c11", 1, depth=8, deadline=900, max_states=30000000, opts={"edge": 1}), J("c11", 5, depth=6, deadline=900, max_states=30000000, opts={"edge": 1})],
+                     J("c11", 1, depth=8, deadline=900, max_states=30000000, opts={"edge": 1}), J("c11", 5, depth=6, deadline=900, max_states=30000000, opts={"edge": 1}), J("c11", 1, depth=8, deadline=900, max_states=30000000, opts={"odd": 1})],
     },
 }
 
@@ -173,23 +178,23 @@ def ASYM16(dl):
 PROPS["C16"] = {
     "level": "model_checking",
     "technique": "explicit-state BFS to a fixpoint over 1005h/1006h writes, SYNC and near-miss frames, NMT commands, ticks and error reads, against a reference model {identifier, producing, period, phase}",
-    "text": "Six initial configurations of (1005h, 1006h, timer frequency), one of them the usual EDS default 'producer bit set, period 0'. 21 events: SDO write 1005h in {80h, 81h, 40000080h, 40000081h}; SDO write 1006h in {0, 1, 2, 3 ticks, half a tick}; frames on 80h, 81h, 7Fh; NMT start/stop/pre-op/reset communication; tick; CONodeGetErr (the application reading - or not reading - the sticky node error); RPDO frames for a synchronous RPDO and a local write of its object; reaction probes are a type-1 TPDO (#0), a type-2 TPDO (#3) and the synchronous RPDO - each recognised SYNC must advance each of them exactly once. After every step: the produced SYNC frames (identifier, DLC 0, exactly every period counted from the start/re-timing write or reset, only in PRE-OP/OP), the SDO verdicts (0609 0030h with the old value kept for a CAN-ID change while producing and for a period below the timer resolution; read-back otherwise), recognition of received SYNC (type-1 TPDO sent exactly once in OPERATIONAL, buffered synchronous RPDO applied exactly once, near-miss identifiers handed to the application). The reachable state set is closed (fixpoint) for all five configurations. Two configurations are explored again in builds whose RPDO and TPDO counts differ (CO_TPDO_N=2 with the synchronous RPDO as number 3, CO_RPDO_N=2 with the second synchronous TPDO as number 3).",
+    "text": "Six initial configurations of (1005h, 1006h, timer frequency), one of them the usual EDS default 'producer bit set, period 0'. 21 events: SDO write 1005h in {80h, 81h, 40000080h, 40000081h}; SDO write 1006h in {0, 1, 2, 3 ticks, half a tick}; frames on 80h, 81h, 7Fh; NMT start/stop/pre-op/reset communication; tick; CONodeGetErr (the application reading - or not reading - the sticky node error); RPDO frames for a synchronous RPDO and a local write of its object; reaction probes are a type-1 TPDO (#0), a type-2 TPDO (#3) and the synchronous RPDO - each recognised SYNC must advance each of them exactly once. After every step: the produced SYNC frames (identifier, DLC 0, exactly every period counted from the start/re-timing write or reset, only in PRE-OP/OP), the SDO verdicts (0609 0030h with the old value kept for a CAN-ID change while producing and for a period below the timer resolution; read-back otherwise), recognition of received SYNC (type-1 TPDO sent exactly once in OPERATIONAL, buffered synchronous RPDO applied exactly once, near-miss identifiers handed to the application). The reachable state set is closed (fixpoint) for all five configurations. Two configurations are explored again in builds whose RPDO and TPDO counts differ (CO_TPDO_N=2 with the synchronous RPDO as number 3, CO_RPDO_N=2 with the second synchronous TPDO as number 3). A seventh configuration gives the synchronous TPDOs an inhibit time (one-shot timers that come and go next to the producer's cyclic timer, timer ids re-used), explored to depth 9 (12); there only the SYNC production and at most one frame per TPDO and step are judged.",
     "note": "periods are whole ticks up to 3 ticks; enabling the producer while 1006h holds no usable period and writing 0 to 1006h while producing may be refused or accepted (the statement leaves it open); a frame buffered before an NMT change may be applied at the next SYNC in OPERATIONAL or dropped; periods above 6.5 s are covered by a dedicated sweep (9 periods from 6 s to 100 s at 100 Hz and 1 kHz: emissions exactly at period and 2 x period), not by the BFS",
     "jobs": {
-        "quick": [J("c16", c, depth=60, deadline=120) for c in range(6)] + [J("c16long")] + ASYM16(120),
-        "thorough": [J("c16", c, depth=60, deadline=600) for c in range(6)] + [J("c16long")] + ASYM16(600),
+        "quick": [J("c16", c, depth=60, deadline=120) for c in range(6)] + [J("c16", 6, depth=9, deadline=120)] + [J("c16long")] + ASYM16(120),
+        "thorough": [J("c16", c, depth=60, deadline=600) for c in range(6)] + [J("c16", 6, depth=12, deadline=900, max_states=12000000)] + [J("c16long")] + ASYM16(600),
     },
 }
 
 PROPS["C12"] = {
     "level": "model_checking",
     "technique": "explicit-state BFS over triggers, value changes, SYNCs, ticks, NMT changes and parameter writes against a reference TPDO model (71 parameter configurations) + exhaustive sweep over all mapping compositions",
-    "text": "(a) 71 configurations (69, 70: TPDO0 starts as a synchronous TPDO of type 1 / 2 and is re-typed to 254/255 and back by the legal procedure in any NMT state - event SDO 1800h:2=1; 60..68 repeat nine of the others with the two TPDOs being numbers 2 and 3 instead of 0 and 1 - 1802h/1A02h, 1803h/1A03h, lower numbers absent; 36..53 with two event-driven TPDOs, the CiA 301 re-mapping procedure of TPDO0 to 1 or 3 objects while OPERATIONAL and a changed asynchronous object of TPDO1 as additional events; 54..59 with both TPDOs living on inhibit/event timers of their own - (inhibit,event) pairs (3,2|2,0) (3,2|0,3) (0,3|0,4) (2,4|3,3) (0,3|2,0) (3,0|2,2) ticks, i.e. event time shorter than inhibit time, expiries that do not transmit, timer ids handed from one TPDO to the other; TPDO1 maps the 32-bit asynchronous object there and its value changes in the upper byte only): TPDO0 event-driven (type 254/255) x inhibit {0,2,3 ticks} x event time {0,3,4 ticks}, mapped to an asynchronous 8-bit and a 16-bit object; TPDO1 synchronous of type {1,2,3,240}; started in PRE-OP or OPERATIONAL. 21 events: COTPdoTrigPdo, COTPdoTrigObj, dictionary write of the asynchronous object with a changed / an unchanged value, write of the other mapped object, SYNC, tick, NMT start/pre-op/stop/reset communication, SDO writes to 1800h:1 (invalidate/re-validate), :2, :3, :5. Per step the TPDO frames (identifier, DLC, data; in order per identifier, the order among different TPDOs within one step being unspecified) and the COPdoTransmit calls must equal the reference model: only in OPERATIONAL with a valid COB-ID, immediate transmission on a trigger unless the inhibit time runs, exactly one transmission at the end of the inhibit time for any number of triggers, event-timer transmissions exactly one event time after the last transmission, ties inhibit-first, type n on every n-th SYNC. (b) all 223 ordered compositions of 1..8 mapped objects of 1/2/3/4 bytes (<= 8 bytes) x two value patterns: frame == little-endian concatenation, DLC == mapped bytes. Six of the configurations run once more on a 100 Hz timer with inhibit and event times in units of 10 ms.",
+    "text": "(a) 71 configurations (69, 70: TPDO0 starts as a synchronous TPDO of type 1 / 2 and is re-typed to 254/255 and back by the legal procedure in any NMT state - event SDO 1800h:2=1; 60..68 repeat nine of the others with the two TPDOs being numbers 2 and 3 instead of 0 and 1 - 1802h/1A02h, 1803h/1A03h, lower numbers absent; 36..53 with two event-driven TPDOs, the CiA 301 re-mapping procedure of TPDO0 to 1 or 3 objects while OPERATIONAL and a changed asynchronous object of TPDO1 as additional events; 54..59 with both TPDOs living on inhibit/event timers of their own - (inhibit,event) pairs (3,2|2,0) (3,2|0,3) (0,3|0,4) (2,4|3,3) (0,3|2,0) (3,0|2,2) ticks, i.e. event time shorter than inhibit time, expiries that do not transmit, timer ids handed from one TPDO to the other; TPDO1 maps the 32-bit asynchronous object there and its value changes in the upper byte only): TPDO0 event-driven (type 254/255) x inhibit {0,2,3 ticks} x event time {0,3,4 ticks}, mapped to an asynchronous 8-bit and a 16-bit object; TPDO1 synchronous of type {1,2,3,240}; started in PRE-OP or OPERATIONAL. 21 events: COTPdoTrigPdo, COTPdoTrigObj, dictionary write of the asynchronous object with a changed / an unchanged value, write of the other mapped object, SYNC, tick, NMT start/pre-op/stop/reset communication, SDO writes to 1800h:1 (invalidate/re-validate), :2, :3, :5. Per step the TPDO frames (identifier, DLC, data; in order per identifier, the order among different TPDOs within one step being unspecified) and the COPdoTransmit calls must equal the reference model: only in OPERATIONAL with a valid COB-ID, immediate transmission on a trigger unless the inhibit time runs, exactly one transmission at the end of the inhibit time for any number of triggers, event-timer transmissions exactly one event time after the last transmission, ties inhibit-first, type n on every n-th SYNC. (b) all 223 ordered compositions of 1..8 mapped objects of 1/2/3/4 bytes (<= 8 bytes) x two value patterns: frame == little-endian concatenation, DLC == mapped bytes. Six of the configurations run once more on a 100 Hz timer with inhibit and event times in units of 10 ms. Changed asynchronous objects (c12map cfg 1): the mapped object is an asynchronous 8-, 16- or 32-bit entry with referenced or direct storage; for all 289 ordered pairs (old, new) of a 17-value list that varies each byte separately, written through the dictionary API and by SDO, the event-driven TPDO must be sent exactly when new differs from old and carry new. The first 8-bit object of the mapping sweep lives at F100h (more than 8000h indices above the communication objects).",
     "note": "a write to 18xxh:5 while the inhibit time runs ends the inhibit time and sends a waiting transmission (the behaviour the repository's unit test pins down); explicit triggers of the synchronous TPDO and inhibit on synchronous TPDOs are outside the statement and not in the alphabet; depth-bounded",
     "jobs": {
-        "quick": [J("c12", c, depth=7, deadline=100, allow_dead=True) for c in range(71)] + [J("c12map")] +
+        "quick": [J("c12", c, depth=7, deadline=100, allow_dead=True) for c in range(71)] + [J("c12map"), J("c12map", 1)] +
                  [J("c12", c, depth=6, deadline=100, allow_dead=True, opts=SLOW) for c in (4, 22, 40, 55, 62, 69)],
-        "thorough": [J("c12", c, depth=10, deadline=1200, max_states=20000000, allow_dead=True) for c in range(71)] + [J("c12map")] +
+        "thorough": [J("c12", c, depth=10, deadline=1200, max_states=20000000, allow_dead=True) for c in range(71)] + [J("c12map"), J("c12map", 1)] +
                     [J("c12", c, depth=9, deadline=1200, max_states=20000000, allow_dead=True, opts=SLOW) for c in (4, 22, 40, 55, 62, 69)],
     },
 }
@@ -197,7 +202,7 @@ PROPS["C12"] = {
 PROPS["C13"] = {
     "level": "model_checking",
     "technique": "explicit-state BFS over RPDO frames, SYNC, local writes and NMT changes for every RPDO table (3 channels x {absent, asynchronous, synchronous, invalid}) with the complete object image compared after every step + exhaustive sweep over all mappings incl. dummies",
-    "text": "(a) all 4^3 RPDO tables, started in PRE-OP and in OPERATIONAL (128 configurations; ten of the OPERATIONAL tables (thorough: all 64) once more with the three channels being RPDO numbers 1..3 instead of 0..2); mappings with a dummy entry, two 8-bit objects, a 32-bit object. 21 events: a frame on each configured identifier with payload pattern A/B and DLC 8 / mapped length; a frame on each neighbouring identifier; SYNC; a local write to the mapped objects; NMT start/pre-op/stop; tick. After every step all application objects must equal the reference image: asynchronous RPDOs take effect immediately and only in OPERATIONAL, synchronous ones exactly once at the next SYNC after a reception, a SYNC without reception changes nothing, other identifiers and states change nothing, nothing is transmitted. Most tables close (fixpoint). (b) all 5332 ordered mappings of objects of width 1/2/3/4 and dummy entries 0002h..0007h (width 1/2/4) totalling <= 8 bytes x two payloads: every object holds exactly its little-endian field, dummies consume their width, no other object changes.",
+    "text": "(a) all 4^3 RPDO tables, started in PRE-OP and in OPERATIONAL (128 configurations; ten of the OPERATIONAL tables (thorough: all 64) once more with the three channels being RPDO numbers 1..3 instead of 0..2); mappings with a dummy entry, two 8-bit objects, a 32-bit object. 21 events: a frame on each configured identifier with payload pattern A/B and DLC 8 / mapped length; a frame on each neighbouring identifier; SYNC; a local write to the mapped objects; NMT start/pre-op/stop; tick. After every step all application objects must equal the reference image: asynchronous RPDOs take effect immediately and only in OPERATIONAL, synchronous ones exactly once at the next SYNC after a reception, a SYNC without reception changes nothing, other identifiers and states change nothing, nothing is transmitted. Most tables close (fixpoint). (b) all 5332 ordered mappings of objects of width 1/2/3/4 and dummy entries 0002h..0007h (width 1/2/4) totalling <= 8 bytes x two payloads: every object holds exactly its little-endian field, dummies consume their width, no other object changes. The first 8-bit object of the sweep lives at F100h, more than 8000h indices above the communication objects the lookup passes on its way.",
     "note": "a frame buffered by a synchronous RPDO before an NMT change may be applied at the next SYNC in OPERATIONAL or dropped; DLC shorter than the mapped length is not in the alphabet (C01 covers it for safety)",
     "jobs": {
         "quick": [J("c13", c, depth=30, deadline=100, allow_dead=True) for c in range(128)] + [J("c13map")] +
@@ -222,7 +227,7 @@ E8 = ["CO_EMCY_N=8"]; S15 = {"nerr": 3, "big": 0}
 PROPS["C15"] = {
     "level": "model_checking",
     "technique": "explicit-state BFS over error set/clear/reset calls, 1003h/1014h writes, read-outs and NMT changes against a reference EMCY model (fixpoint for history depths 0..3)",
-    "text": "12 configurations: emergency tables with register classes {0,1,1,2,7} and {1,1,1,1,1} x history depth {0 (absent),1,2,3,8}, one with 1014h initially disabled, one left in INIT; CO_EMCY_N 8 and 32. Events: COEmcySet(e, with/without manufacturer field) and COEmcyClr(e) for 5 errors and one index >= CO_EMCY_N (the five errors sit in table rows 0..4 and, in three further layouts of the 32-row build, in rows {5,10,18,9,3}, {7,8,15,16,24}, {6,13,14,22,29} - neighbours across the borders of the status bytes, particular bit positions); COEmcyReset(silent 0/1); SDO write 1003h:0 with 0 and 1; SDO reads of 1003h:0..depth+1 and 1001h; COEmcyGet/COEmcyCnt; NMT stop/start/pre-op; SDO write 1014h disable/enable; a burst macro-step (three activations) for the depth-8 ring. After every step: EMCY frames (identifier from 1014h, code, register, manufacturer bytes; one per real transition, none while 1014h is invalid or the NMT state forbids), 1001h, COEmcyCnt, COEmcyGet of all slots, 1003h count and entries newest-first, SDO verdicts. Closed state space (fixpoint) for history depths 0..3, depth-bounded for depth 8. Long histories: with the additional event '255 activations' (85 bursts, every sub-step judged) the closed state spaces of depths 1 and 2 (thorough) and bounded explorations of depths 3 and 8 contain histories of more than 256 and 512 activations without a clear of 1003h.",
+    "text": "12 configurations: emergency tables with register classes {0,1,1,2,7} and {1,1,1,1,1} x history depth {0 (absent),1,2,3,8}, one with 1014h initially disabled, one left in INIT; CO_EMCY_N 8 and 32. Events: COEmcySet(e, with/without manufacturer field) and COEmcyClr(e) for 5 errors and one index >= CO_EMCY_N (the five errors sit in table rows 0..4 and, in three further layouts of the 32-row build, in rows {5,10,18,9,3}, {7,8,15,16,24}, {6,13,14,22,29} - neighbours across the borders of the status bytes, particular bit positions); COEmcyReset(silent 0/1); SDO write 1003h:0 with 0 and 1; SDO reads of 1003h:0..depth+1 and 1001h; COEmcyGet/COEmcyCnt; NMT stop/start/pre-op; SDO write 1014h disable/enable; a burst macro-step (three activations) for the depth-8 ring. After every step: EMCY frames (identifier from 1014h, code, register, manufacturer bytes; one per real transition, none while 1014h is invalid or the NMT state forbids), 1001h, COEmcyCnt, COEmcyGet of all slots, 1003h count and entries newest-first, SDO verdicts. Closed state space (fixpoint) for history depths 0..3, depth-bounded for depth 8. Long histories: with the additional event '255 activations' (85 bursts, every sub-step judged) the closed state spaces of depths 1 and 2 (thorough) and bounded explorations of depths 3 and 8 contain histories of more than 256 and 512 activations without a clear of 1003h. The bytes of expedited downloads that carry no data (all three for the one-byte write to 1003h:0) are non-zero in every SDO write of the harness.",
     "note": "an index >= CO_EMCY_N is ignored or treated as the last row (both accepted, then full consistency required); the register byte of non-silent-reset frames may be any value reachable while clearing; reads above the current count and the abort code of a refused 1003h:0 write are not judged",
     "jobs": {
         "quick":    [J("c15", c, defs=E8, depth=40, deadline=100) for c in (0, 1, 2, 5, 6, 7, 10, 11)] +
@@ -243,12 +248,12 @@ PROPS["C15"] = {
 PROPS["C17"] = {
     "level": "fault_enumeration",
     "technique": "exhaustive enumeration of (parameter-group layout, request history, restart point, NVM fault positions) on the real 1010h/1011h store/load path with a harness-owned NVM device, against a reference model (RAM image, NVM image, last successfully stored image per group)",
-    "text": "9 layouts (1..4 groups, sizes {1,2,5,64}, both reset types, enabled/disabled/autonomous flags, adjacent NVM offsets with guard bytes). Per layout every request history of length 3 (quick) / 4 (thorough) over {'save' and a wrong value to every 1010h sub-index, 'load' and a wrong value to every 1011h sub-index, an application change of each group, NMT reset node / communication}, every restart point (discard node and RAM, keep NVM, initialise again) and every position k at which the k-th NVM driver call is short by one byte or returns 0 (one fault; thorough additionally two faults on histories of length 3); plus a sweep of 41 wrong signature values per object and sub-index and the first initialisation on an erased device. After every request the SDO verdict, the complete 512-byte NVM image, the RAM image, the COParaDefault calls and - after restarts and resets - the reloaded groups are compared with the reference; a short write must never be confirmed, a short read must leave a node error.",
+    "text": "9 layouts (1..4 groups, sizes {1,2,5,64}, both reset types, enabled/disabled/autonomous flags, adjacent NVM offsets with guard bytes). Per layout every request history of length 3 (quick) / 4 (thorough) over {'save' and a wrong value to every 1010h sub-index, 'load' and a wrong value to every 1011h sub-index, an application change of each group, NMT reset node / communication}, every restart point (discard node and RAM, keep NVM, initialise again) and every position k at which the k-th NVM driver call is short by one byte or returns 0 (one fault; thorough additionally two faults on histories of length 3); plus a sweep of 41 wrong signature values per object and sub-index and the first initialisation on an erased device. After every request the SDO verdict, the complete 512-byte NVM image, the RAM image, the COParaDefault calls and - after restarts and resets - the reloaded groups are compared with the reference; a short write must never be confirmed, a short read must leave a node error. Two layouts give 1010h and 1011h different highest sub-indices (1011h with sub-index 1 only next to three groups in 1010h, and the reverse); requests to a sub-index the object does not implement must be aborted and change nothing.",
     "note": "sub-index 1 means 'all groups' (placeholder CO_PARA) when there are >= 2 groups, as the repository's own unit test builds it; a request addressing a disabled group may be confirmed or aborted; the content of a group whose own driver call was short is adopted from the implementation; NMT reset node reloads the node groups AND the communication groups (co_nmt.h: 'reset application (and communication)'; CiA 301 passes from reset application through reset communication; C20 equates it with a fresh start, which loads every group); on NMT reset communication the node groups may be reloaded or left alone",
     "rule": "a case is a tuple (layout, request history, restart point, fault positions and kinds) executed from a restored snapshot; non-trivial = at least one NVM driver call or SDO answer happened; distinct = distinct hashes of verdicts, driver-call log and final images",
     "jobs": {
-        "quick":    [J("c17", c) for c in range(11)],
-        "thorough": [J("c17", c, deadline=900) for c in range(11)],
+        "quick":    [J("c17", c) for c in range(13)],
+        "thorough": [J("c17", c, deadline=900) for c in range(13)],
     },
     "bounds": {"quick": "histories of length 3, every restart point, 1 fault at every NVM call (short by 1 / 0 bytes)",
                "thorough": "histories of length 4 with 1 fault + histories of length 3 with 2 faults"},
@@ -288,10 +293,10 @@ PROPS["C19"] = {
 PROPS["C20"] = {
     "level": "model_checking",
     "technique": "metamorphic differential exploration: BFS over a mixed history alphabet; in every reached state the node after an NMT reset is compared, under every probe sequence, with a freshly initialised node holding the same dictionary values (the implementation is its own reference)",
-    "text": "Node with heartbeat producer and two consumers, SYNC (consumer or producer), EMCY, an asynchronous RPDO, an event-driven and a synchronous TPDO, SDO server, SDO client, LSS, an application timer; two further configurations keep 1017h in a communication parameter group with an NVM image (1010h:1, event 'save'), so that RAM and NVM differ at the reset and the fresh node loads the NVM image. 36 (37) history events: ticks; SDO writes to 1017h, 1016h, 1005h, 1006h, 1014h, 1800h:1/:3/:5; heartbeat frames; SDO transfers left open in every phase (segmented and block, up and down); a busy SDO client and its response; COEmcySet/Clr of error 2 and COEmcySet of error 9 (another status byte); LSS configure node-id + store; NMT start/stop/pre-op; application timer create/delete; RPDO frame; TPDO trigger. In every discovered state s (on copies): A = s followed by NMT reset communication (configurations 0,2) or reset node (1,3); B = the pristine pre-initialisation memory image into which the dictionary values of A (not the run-time fields next to them), the NVM image and the LSS store are copied, then CONodeInit + CONodeStart. For every probe sequence of length <= 2 (3) over 14 probes (SDO reads, SYNC, heartbeat of a monitored node, RPDO, NMT start, LSS inquiry, SDO client transfer, 4 ticks, segmented upload, COEmcySet, TPDO trigger, SDO write+read) the complete traces (frames per tick, callbacks, NMT mode, node id) of A and B must be equal; the timer slots in use after the reset must equal those of the fresh node plus the live application timers. Two configurations are explored again in a build with two SDO servers in which all SDO traffic of the histories (segmented and block transfers left open at the reset) and of the probes runs over the second server.",
+    "text": "Node with heartbeat producer and two consumers, SYNC (consumer or producer), EMCY, an asynchronous RPDO, an event-driven and a synchronous TPDO, SDO server, SDO client, LSS, an application timer; two further configurations keep 1017h in a communication parameter group with an NVM image (1010h:1, event 'save'), so that RAM and NVM differ at the reset and the fresh node loads the NVM image. 36 (37) history events: ticks; SDO writes to 1017h, 1016h, 1005h, 1006h, 1014h, 1800h:1/:3/:5; heartbeat frames; SDO transfers left open in every phase (segmented and block, up and down); a busy SDO client and its response; COEmcySet/Clr of error 2 and COEmcySet of error 9 (another status byte); LSS configure node-id + store; NMT start/stop/pre-op; application timer create/delete; RPDO frame; TPDO trigger. In every discovered state s (on copies): A = s followed by NMT reset communication (configurations 0,2) or reset node (1,3); B = the pristine pre-initialisation memory image into which the dictionary values of A (not the run-time fields next to them), the NVM image and the LSS store are copied, then CONodeInit + CONodeStart. For every probe sequence of length <= 2 (3) over 14 probes (SDO reads, SYNC, heartbeat of a monitored node, RPDO, NMT start, LSS inquiry, SDO client transfer, 4 ticks, segmented upload, COEmcySet, TPDO trigger, SDO write+read) the complete traces (frames per tick, callbacks, NMT mode, node id) of A and B must be equal; the timer slots in use after the reset must equal those of the fresh node plus the live application timers. Two configurations are explored again in a build with two SDO servers in which all SDO traffic of the histories (segmented and block transfers left open at the reset) and of the probes runs over the second server. LSS sequences split across the reset: the history can hold the first frame or the first three of a selective switch and the first three of the six-frame identify-remote-slave sequence, the probes send the remaining frames - a fresh node has not seen the beginning and must not complete the sequence.",
     "note": "1003h (error history) is not part of the dictionary: whether a reset clears it is not fixed by the statement; application timer callbacks are removed from the traces; depth-bounded",
     "jobs": {
-        "quick": [J("c20", c, depth=4, deadline=100) for c in range(6)] + [J("c20", c, defs=["CO_SSDO_N=2"], depth=3, deadline=100, opts={"srv": 1}) for c in (0, 1)],
+        "quick": [J("c20", c, depth=4, deadline=150) for c in range(6)] + [J("c20", c, defs=["CO_SSDO_N=2"], depth=3, deadline=100, opts={"srv": 1}) for c in (0, 1)],
         "thorough": [J("c20", c, depth=5, deadline=1500, max_states=5000000) for c in range(6)] + [J("c20", c, depth=3, deadline=1500, opts={"plen": 3}) for c in range(6)] + [J("c20", c, defs=["CO_SSDO_N=2"], depth=4, deadline=1200, max_states=5000000, opts={"srv": 1}) for c in (0, 1, 2)],
     },
 }
